@@ -64,6 +64,9 @@ def st_valid(draw, prior):
         ts = draw(st.sampled_from([2**31 - 1, 2**31, 2**32 - 1, 2**32, 2**63 - 1, 2**63, 2**64]))
     elif extra == 6:
         kind = draw(st.sampled_from([65536, 2**31, 2**32 - 1, 2**32, 2**63, 2**64]))
+    elif extra == 7:
+        # a tag value that is not a string (relay hints inside the value, numbers): accepted or refused, but consistently
+        tags.append(draw(st.sampled_from([["e", ["ab" * 32, "wss://r"]], ["t", ["a"]], ["e", 1], ["t", {"a": 1}], ["p", None]])))
     return E.make(k, kind, ts, tags, draw(st.sampled_from(["", "hello", "x" * 100])))
 
 
@@ -128,19 +131,48 @@ class Ack(Sub):
     rule = RULE
 
     def strategy(self, tier):
-        return st.tuples(st.sampled_from(["kv", "sql"]), st_history(8 if tier == "quick" else 16)).map(list)
+        # third element: the cross-worker notifier is configured but its server cannot be reached
+        return st.tuples(st.sampled_from(["kv", "sql"]), st_history(8 if tier == "quick" else 16),
+                         st.sampled_from([False, False, False, True])).map(list)
 
     def run_case(self, case):
-        return H.run(self._run, case[0], case[1])
+        return H.run(self._run, case[0], case[1], case[2] if len(case) > 2 else False)
 
-    async def _run(self, backend, history):
+    async def _run(self, backend, history, notifier_down=False):
         viol = []
         labels = ["backend:" + backend]
         seen_accept = False
         nt = False
-        async with H.Rig(backend) as rig:
+        real_asyncio = None
+        if notifier_down:
+            import types
+
+            from nostr_relay import notifier
+
+            async def refuse(*a, **kw):
+                raise ConnectionRefusedError("notify server is down")
+
+            real_asyncio = notifier.asyncio
+            fake = types.SimpleNamespace(**{k: getattr(real_asyncio, k) for k in dir(real_asyncio) if not k.startswith("__")})
+            fake.open_connection = refuse
+            notifier.asyncio = fake
+            labels.append("notifier-configured-server-down")
+        try:
+            return await self._history(backend, history, notifier_down, labels)
+        finally:
+            if real_asyncio is not None:
+                notifier.asyncio = real_asyncio
+
+    async def _history(self, backend, history, notifier_down, labels):
+        viol = []
+        seen_accept = False
+        nt = False
+        async with H.Rig(backend, config={"run_notifier": True} if notifier_down else {}) as rig:
             w = rig.conn("10.0.0.9")
             await w.send(["REQ", "w", {"since": 1}])
+            # further live subscriptions whose filters look INTO tag values (matching is evaluated for every accepted event)
+            await w.send(["REQ", "w2", {"#e": ["ab" * 32], "#t": ["a"]}])
+            await w.send(["REQ", "w3", {"#p": [E.PKS[0]], "kinds": [1]}])
             c = rig.conn("10.0.0.1")
             for step, ev in enumerate(history):
                 before, before_raw = await raw(rig)
